@@ -178,7 +178,7 @@ var _ *pb.SharedGroupProposal
 //@ set grpOK = ite(isnil($ret1), 1, 0)
 //@ end
 //@ at call proto.Unmarshal
-//@ requires [C05 decodes-the-requests-message] $arg0 == req.Message && istype($arg1, *raftpb.Message) && grpOK == 1
+//@ requires [C05 decodes-the-requests-message] $arg0 == req.Message && istype($arg1, *raftpb.Message)
 //@ set decoded = ite(isnil($ret0), 1, 0)
 //@ end
 //@ at call RaftGroup).receive
